@@ -259,6 +259,11 @@ class SymOps:
         from .engine import V
         return z3.Function("attr_" + name, V, V)(self.v(x))
 
+    def int_valued(self, x):
+        """x is an integer value (x == int(x))"""
+        from .engine import int2v, v2int
+        return self.v(x) == int2v(v2int(self.v(x)))
+
     def iter_elem(self, it, j):
         """j-th element produced by iterating over an opaque iterable"""
         from .engine import V
@@ -416,6 +421,9 @@ class ConcOps:
 
     def attr(self, x, name):
         return getattr(x, name)
+
+    def int_valued(self, x):
+        return x == int(x)
 
     def contains(self, container, item):
         return item in container
